@@ -30,14 +30,21 @@ ELEMS = {
             'ElementDG(ElementTriP2())', 'ElementVector(ElementTriP2())', 'ElementVector(ElementTriP1())',
             'ElementComposite(ElementTriP2(), ElementTriP1())', 'ElementComposite(ElementTriP2(), ElementTriP0())',
             'ElementComposite(ElementVector(ElementTriMini()), ElementTriP1())', 'ElementComposite(ElementTriRT1(), ElementTriP0())',
-            'ElementComposite(ElementVector(ElementTriP2()), ElementTriP1(), ElementTriP0())'],
+            'ElementComposite(ElementVector(ElementTriP2()), ElementTriP1(), ElementTriP0())',
+            # explicit number of components different from the spatial dimension
+            'ElementVector(ElementTriP2(), 3)', 'ElementVector(ElementTriP1(), 1)'],
     'quad': ['ElementQuad0', 'ElementQuad1', 'ElementQuad2', 'ElementQuadS2', 'ElementQuadP(3)', 'ElementQuadRT1',
              'ElementDG(ElementQuad1())', 'ElementVector(ElementQuad2())', 'ElementComposite(ElementQuad2(), ElementQuad1())'],
     'tet': ['ElementTetP0', 'ElementTetP1', 'ElementTetP2', 'ElementTetMini', 'ElementTetCR', 'ElementTetCCR', 'ElementTetRT1',
             'ElementTetN1', 'ElementVector(ElementTetP2())', 'ElementComposite(ElementVector(ElementTetP2()), ElementTetP1())',
-            'ElementDG(ElementTetP2())'],
+            'ElementDG(ElementTetP2())',
+            # several DOFs per edge followed by facet / interior blocks; edge and facet DOFs in different components
+            'ElementVector(ElementTetCCR())', 'ElementComposite(ElementVector(ElementTetP2()), ElementTetP0())',
+            'ElementComposite(ElementTetP2(), ElementTetCR())', 'ElementComposite(ElementTetN1(), ElementTetRT1())',
+            'ElementVector(ElementTetP2(), 2)'],
     'hex': ['ElementHex0', 'ElementHex1', 'ElementHexS2', 'ElementHex2', 'ElementHexRT1', 'ElementVector(ElementHex1())',
-            'ElementComposite(ElementHexS2(), ElementHex1())'],
+            'ElementComposite(ElementHexS2(), ElementHex1())', 'ElementComposite(ElementHexS2(), ElementHexRT1())',
+            'ElementVector(ElementHexS2(), 2)'],
     'wedge': ['ElementWedge1'],
 }
 MESHES = {
@@ -129,11 +136,19 @@ def dofs_config(h, mesh, spec, free=None):
            'interior': e.nodal_dofs + e.facet_dofs + (e.edge_dofs if dim == 3 else 0)}
     names = [dn[off[kind] + k] if off[kind] + k < len(dn) else '?' for (kind, a, k) in lay] if len(lay) == Nb else ['?'] * Nb
     has_locs = D.shape[0] == Nb and not np.isnan(D).any()
+    if hasattr(e, 'doflocs'):
+        h.concrete('reference DOF location table has one row per local DOF', D.shape[0] == Nb, '%d rows, %d local DOFs' % (D.shape[0], Nb))
     if has_locs:
         with warnings.catch_warnings():
             warnings.simplefilter('ignore')
             loc = m._mapping().F(D.T)           # (dim, nt, Nb) through the real mapping
         first = {}
+        if len(lay) == Nb:
+            # a nodal DOF sits at its vertex
+            for i, (kind, a, k) in enumerate(lay):
+                if kind == 'nodal':
+                    for c in range(nt):
+                        h.equal('local DOF %d of cell %d sits at vertex %d' % (i, c, t[a, c]), np.asarray(loc[:, c, i]), np.asarray(m.doflocs[:, t[a, c]]))
         for c in range(nt):
             for i in range(Nb):
                 g = int(ed[i, c])
@@ -241,8 +256,9 @@ def build_configs(tier, seed):
                 if kind == 'wedge':
                     free = 'none'
                 if kind == 'hex':
-                    # G(1)/G(2): one or two free vertices, the rest generic rationals
-                    free = [0] if quick else [0, 5]
+                    # G(1)/G(2): one or two free vertices, the rest generic rationals (quick: only three classes symbolic,
+                    # the others numeric - a hexahedral basis with symbolic geometry costs ~4 min to tabulate)
+                    free = ([0] if spec in ('ElementHex1', 'ElementHexS2', 'ElementHexRT1') else 'none') if quick else [0, 5]
                     if quick and ('Hex2' in spec or 'Composite' in spec):
                         continue
                 cfgs.append(dict(name='%s/%s%s' % (mesh_, spec.replace(' ', ''), '' if free is None else '/free=%s' % (free if isinstance(free, str) else ','.join(map(str, free)))), fn=dofs_config, kw=dict(mesh=mesh_, spec=spec, free=free),
